@@ -779,16 +779,26 @@ def tr_record(fr, sp, tf, unrec, G):
     G.append("Definition gen_as_field : list (asfield_impl * asfield_how) :=\n  [" + "; ".join(rows) + "].")
 
 
+HOOK_RX = re.compile(r"#\[cfg\((?:all\()?tracing_verif\b[^\]]*\]\s*[^;{}]*;")
+
+
+def load(repo, rel):
+    """Source text without comments and without verification hooks: those are add-only *statements* under
+    `#[cfg(tracing_verif)]` / `#[cfg(all(tracing_verif, ..))]` (absent from a normal build; yield points that do
+    nothing unless a callback is installed, which the C10 harness never does)."""
+    return HOOK_RX.sub(" ", strip_comments(open(os.path.join(repo, rel)).read()))
+
+
 def main(repo, out):
     unrec = []
-    fr = strip_comments(open(os.path.join(repo, "tracing-core/src/field.rs")).read())
+    fr = load(repo, "tracing-core/src/field.rs")
     cut = fr.find("#[cfg(test)]\nmod test")
     if cut > 0:
         fr = fr[:cut]
-    mr = strip_comments(open(os.path.join(repo, "tracing/src/macros.rs")).read())
-    sp = strip_comments(open(os.path.join(repo, "tracing/src/span.rs")).read())
-    lib = strip_comments(open(os.path.join(repo, "tracing/src/lib.rs")).read())
-    tf = strip_comments(open(os.path.join(repo, "tracing/src/field.rs")).read())
+    mr = load(repo, "tracing/src/macros.rs")
+    sp = load(repo, "tracing/src/span.rs")
+    lib = load(repo, "tracing/src/lib.rs")
+    tf = load(repo, "tracing/src/field.rs")
     G = []
     G.append("(* GENERATED by translators/values.py from tracing-core/src/field.rs, tracing/src/{macros,span,lib,field}.rs.")
     G.append("   Rewritten on every run; do not edit. *)")
